@@ -185,6 +185,15 @@ def run_case(ctx, i, root, reqs, metas):
                 p = tgt_dir / foreign['new']
                 p.parent.mkdir(parents=True, exist_ok=True)
                 p.write_bytes(b'f' * ((src_dir / foreign['old']).stat().st_size + 13))     # never the size of the source result
+        # the work directory of an UNFINISHED resumable run in the source (partial progress of a ContinuesData task that was never finished):
+        # part of the source like everything else
+        for t in tasks:
+            if t['persist'] and t.get('has_tmp') and t['name'] not in computed and rng.random() < 0.6:
+                wd = src_dir / (t['old'] + '_tmp')
+                if wd.exists() or kinds.get(old.tasks[t['name']].__class__.__name__) == 'continues':
+                    wd.mkdir(parents=True, exist_ok=True)
+                    (wd / 'progress.bin').write_bytes(b'half way')
+                    ctx.count('source:unfinished-work-directory')
         runs = {'dry': [True], 'real': [False], 'twice': [False, False], 'dry-real': [True, False], 'pre': [False], 'foreign': [False]}[scenario]
         case = {'spec': {k: spec.get(k) for k in ('classes', 'files', 'global_vars', 'context')}, 'computed': sorted(computed), 'scenario': scenario,
                 'verbose': verbose, 'foreign': foreign and foreign['name']}
